@@ -18,7 +18,7 @@ def run(tier):
     cur = vlib.build("O1")
     ref = vlib.build("O1", repo=os.path.join(vlib.ROOT, "ref"), tag="ref-O1")
     wd = vlib.workdir("c08")
-    stride, offset = (2, vlib.SEED) if tier == "quick" else (1, 0)
+    stride, offset = (3, vlib.SEED) if tier == "quick" else (1, 0)
     lists = {}
     for who, exe in (("ref", ref), ("cur", cur)):
         d = os.path.join(wd, who)
